@@ -245,6 +245,24 @@ func c07Retry(c *Ctx) {
 				final++
 			}
 		}
+		// a response-size limit: the first attempt one of whose writes does not fit ends the exchange with the error
+		// handler's answer (one response, none of the attempts' bytes), whatever the retry expression says
+		var maxResp int64
+		overAt := 0
+		if i%8 == 7 && !recMode {
+			maxResp = 1 + r.Int64N(6000)
+			for k := 1; k <= final && overAt == 0; k++ {
+				var acc int64
+				for _, n := range scripts[k-1].Chunks {
+					if acc+int64(n) > maxResp {
+						overAt = k
+						break
+					}
+					acc += int64(n)
+				}
+			}
+			c.Count("cases_with_response_limit", 1)
+		}
 		var mu sync.Mutex
 		invoked := 0
 		overrideMethod := ""
@@ -284,6 +302,9 @@ func c07Retry(c *Ctx) {
 		}
 		if r.IntN(3) == 0 {
 			opts = append(opts, buffer.MemResponseBodyBytes(int64(1+r.IntN(4096))))
+		}
+		if maxResp > 0 {
+			opts = append(opts, buffer.MaxResponseBodyBytes(maxResp))
 		}
 		buf, err := buffer.New(h, opts...)
 		desc := map[string]any{"retry": exprText, "method": method, "predicted_invocations": final, "final_script": scripts[final-1]}
@@ -351,6 +372,19 @@ func c07Retry(c *Ctx) {
 		}
 		if n > 11 {
 			c.Violation("invocations/over-11", sfmt("handler invoked %d times", n), desc)
+			return
+		}
+		if overAt > 0 {
+			c.Count("responses_over_the_limit", 1)
+			if n != overAt {
+				c.Violation("invocations/count", sfmt("response limit %d: attempt %d wrote more than that, so the exchange ends there; the handler was invoked %d times", maxResp, overAt, n), desc)
+				return
+			}
+			if got.status < 400 || bytes.Contains(got.body, []byte("[a")) {
+				c.Violation("response/over-limit", sfmt("response limit %d exceeded by attempt %d: the client got status %d and %d body bytes (bytes of an attempt among them: %v); exactly one error response without any attempt's bytes is due", maxResp, overAt, got.status, len(got.body), bytes.Contains(got.body, []byte("[a"))), desc)
+				return
+			}
+			c.Nontrivial(sfmt("overlimit/%s/%d/%d", exprText, maxResp, overAt))
 			return
 		}
 		if n != final {
